@@ -58,6 +58,8 @@ pub struct FaultCtl {
     /// violations found by a mirror comparison (C06/C19)
     pub mirror_violations: Vec<String>,
     pub total_calls: u64,
+    /// one-shot: the next call of this kind fails (C07: the key-package delete of a joiner's first write)
+    pub fail_what: Option<&'static str>,
 }
 
 pub type Faults = Arc<Mutex<FaultCtl>>;
@@ -65,6 +67,11 @@ pub type Faults = Arc<Mutex<FaultCtl>>;
 fn gate(f: &Faults, what: &'static str) -> Result<(), SimError> {
     let mut f = f.lock().unwrap();
     f.total_calls += 1;
+    if f.fail_what == Some(what) {
+        f.fail_what = None;
+        f.fired += 1;
+        return Err(SimError(format!("{INJECTED} at the next {what}")));
+    }
     if f.counting {
         let idx = f.calls;
         f.calls += 1;
